@@ -606,7 +606,10 @@ def c04(run, an=None):
                         owed.append(("PUBREC", p["id"], 0))
                     else:
                         if len(pending) >= 8:
-                            continue  # broker exceeded the advertised receive maximum
+                            # the broker exceeded the advertised Receive Maximum (outside the property's
+                            # quantifier): refused with 0x93, not delivered
+                            owed.append(("PUBREC", p["id"], 0x93))
+                            continue
                         pending.add(p["id"])
                         owed.append(("PUBREC", p["id"], 0))
                 fatal = any(re.match(r"ret \w+ err (Peer.InvalidPacket|Resource.PacketTooLarge)", e) for e in st.events)
